@@ -365,6 +365,26 @@ def reach_in(S, starts, ctx, cut_edges=(), cut_nodes=()):
     return seen
 
 
+def local_loop(S, node, ctx):
+    """Nodes on a cycle through `node` that stays inside calling context `ctx` (and bodies spliced
+    below it): the innermost source-level loop around a node, even when an outer loop encloses the
+    whole function."""
+    fw = reach_in(S, S.succ[node], ctx)
+    fw.add(node)
+    # backward from node inside fw
+    back = set()
+    st = [node]
+    while st:
+        a = st.pop()
+        if a in back:
+            continue
+        back.add(a)
+        for b in S.pred[a]:
+            if b in fw and b not in back and b not in set(ctx.returns):
+                st.append(b)
+    return back if len(back) > 1 else set()
+
+
 TRY_MAP = {"Ok": "Continue", "Err": "Break", "Some": "Continue", "None": "Break"}
 
 
@@ -403,6 +423,15 @@ def reach_pf(S, starts, cut_edges=(), cut_nodes=(), facts0=()):
                     fd[key] = r["vn"]
                 else:
                     fd.pop(key, None)
+            elif r["k"] == "agg" and r.get("ak") == "tuple":
+                fd.pop(key, None)
+                for i_, o_ in enumerate(r["ops"]):
+                    pl_ = o_.get("m") or o_.get("c")
+                    fk = (cid, ("fld", l, i_))
+                    if pl_ and not pl_.get("p") and (cid, pl_["l"]) in fd:
+                        fd[fk] = fd[(cid, pl_["l"])]
+                    else:
+                        fd.pop(fk, None)
             elif r["k"] == "use" and ("m" in r["o"] or "c" in r["o"]):
                 pl = r["o"].get("m") or r["o"].get("c")
                 pj = pl.get("p", [])
@@ -411,6 +440,8 @@ def reach_pf(S, starts, cut_edges=(), cut_nodes=(), facts0=()):
                     src = (cid, pl["l"])
                 elif len(pj) == 2 and pj[0]["k"] == "downcast" and pj[0].get("n") == "Ready" and pj[1]["k"] == "field":
                     src = (cid, ("rdy", pl["l"]))
+                elif len(pj) == 1 and pj[0]["k"] == "field":
+                    src = (cid, ("fld", pl["l"], pj[0]["i"]))
                 if src is not None and src in fd:
                     fd[key] = fd[src]
                 else:
